@@ -118,6 +118,17 @@ func scenario(t *testing.T, name, role string) {
 			at(&wg, 2*Tin+200*time.Millisecond, func() { _ = r.S.IsLogged() })
 			at(&wg, 2*Tin+200*time.Millisecond, func() { inbound(r, &pseq, &pmu, "hbt", nil) })
 			at(&wg, 2*Tin+400*time.Millisecond, send)
+		case "testrequest_answer_vs_queries": // the session's own TestRequest is answered (by any message) while the application queries the state
+			logon()
+			for k, ans := range []string{"hbt", "app", "testreq", "hbt"} {
+				ans := ans
+				d := time.Duration(k+1)*Tin + time.Duration(k)*300*time.Millisecond + 250*time.Millisecond // the TestRequest of this round is out
+				for j := 0; j < 3; j++ {
+					at(&wg, d, func() { _ = r.S.IsLogged() })
+				}
+				at(&wg, d, func() { inbound(r, &pseq, &pmu, ans, []int{69}) })
+				at(&wg, d+time.Millisecond, func() { _ = r.S.IsLogged() })
+			}
 		default:
 			t.Fatalf("DRIVER-ERROR unknown scenario %s", name)
 		}
